@@ -71,14 +71,14 @@ theorem idle_all_handled (s : S) (hG : Good s) (hc : s.emptyAdds = 0) (ht : s.tr
   rw [flatten_nil_of_all_nil s.getters hempty, h3, hwork] at hi
   simpa using hi
 
-/-- all shards empty, nothing pending, in a quiescent state of an in-contract execution -/
-theorem quiescent_settled (s : S) (hG : Good s) (hc : InContract s) (hq : Quiescent s) :
+/-- nothing pending once no Add call and no worker can move, in an in-contract execution -/
+theorem quiescent_settled (s : S) (hG : Good s) (hc : InContract s) (hq : QuiescentQ s) :
     s.trigger = 0 ∧ s.wpc = .idle ∧
     (∀ (i : Nat) (a : Adder), s.adders[i]? = some a → a.pc = .done ∨ a.pc = .panicked) := by
   obtain ⟨hsz, he, _⟩ := hc
   have hA := quiescent_adders s hG he hsz hq
   have hW := quiescent_worker s hG he hsz hq
-  obtain ⟨c1, c2, c3, c4, _⟩ := quiescent_counts s hq
+  obtain ⟨c1, c2, c3, c4⟩ := quiescent_tails s hq
   refine ⟨?_, hW, hA⟩
   have d1 := hG.ex.d1
   have t3 := hG.tr.t3
